@@ -22,6 +22,13 @@ _PRIVATE = _random.Random(0)
 NORMAL_MENU = (0.0, -1.0, 1.0, 2.5)   # standard-normal menu (reachability only, never a probability claim)
 
 
+def _emul(exc):
+    """Marks an exception that a dispatcher raises to mimic the genuine primitive (e.g. randrange(0)); the explorer
+    attributes it to the calling library code, not to the harness."""
+    exc._emulated = True
+    return exc
+
+
 def active():
     return _ACTIVE
 
@@ -90,7 +97,7 @@ def _mk_random():
             return o['random.randrange'](start, stop, step)
         rng = range(start) if stop is None else range(start, stop, step)
         if len(rng) == 0:
-            raise ValueError("empty range for randrange()")
+            raise _emul(ValueError("empty range for randrange()"))
         return rng[r.choose(len(rng), 'random.randrange')]
 
     def randint(a, b):
@@ -98,7 +105,7 @@ def _mk_random():
         if r is None:
             return o['random.randint'](a, b)
         if b < a:
-            raise ValueError("empty range for randint()")
+            raise _emul(ValueError("empty range for randint()"))
         return a + r.choose(b - a + 1, 'random.randint')
 
     def choice(seq):
@@ -106,7 +113,7 @@ def _mk_random():
         if r is None:
             return o['random.choice'](seq)
         if len(seq) == 0:
-            raise IndexError('Cannot choose from an empty sequence')
+            raise _emul(IndexError('Cannot choose from an empty sequence'))
         return seq[r.choose(len(seq), 'random.choice')]
 
     def choices(population, weights=None, *, cum_weights=None, k=1):
@@ -116,7 +123,7 @@ def _mk_random():
         population = list(population)
         n = len(population)
         if n == 0:
-            raise IndexError('Cannot choose from an empty population')
+            raise _emul(IndexError('Cannot choose from an empty population'))
         if cum_weights is not None:
             cw = list(cum_weights)
             weights = [cw[0]] + [cw[i] - cw[i - 1] for i in range(1, n)]
@@ -125,9 +132,9 @@ def _mk_random():
         else:
             weights = list(weights)
             if len(weights) != n:
-                raise ValueError('The number of weights does not match the population')
+                raise _emul(ValueError('The number of weights does not match the population'))
             if sum(weights) <= 0:
-                raise ValueError('Total of weights must be greater than zero')
+                raise _emul(ValueError('Total of weights must be greater than zero'))
             w = _ratio_weights(weights)
         return [population[r.choose(n, 'random.choices', w)] for _ in range(k)]
 
@@ -146,7 +153,7 @@ def _mk_random():
         if counts is not None:
             pool = [p for p, c in zip(pool, counts) for _ in range(c)]
         if not 0 <= k <= len(pool):
-            raise ValueError("Sample larger than population or is negative")
+            raise _emul(ValueError("Sample larger than population or is negative"))
         out = []
         for _ in range(k):
             out.append(pool.pop(r.choose(len(pool), 'random.sample')))
@@ -253,7 +260,7 @@ def _mk_numpy():
             low, high = 0, low
         shape, n = _shape_count(size)
         if high <= low:
-            raise ValueError("low >= high")
+            raise _emul(ValueError("low >= high"))
         out = [int(low) + r.choose(int(high) - int(low), 'np.random.randint') for _ in range(n)]
         if shape is None:
             return _np.dtype(dtype).type(out[0]) if dtype is not int else out[0]
